@@ -191,6 +191,9 @@ pub struct Invocation {
     pub cwd: PathBuf,
     /// VERIF_SHIM_PLAN for the child (the shim is only loaded when this is set)
     pub shim_plan: Option<String>,
+    /// Some(name): the executable FILE that is started carries this name (a hard link or copy
+    /// of the buildpack binary called `detect` / `build`), independently of argv[0]
+    pub exe_file_name: Option<String>,
 }
 
 #[derive(Clone, Debug, Default, Serialize, Deserialize)]
@@ -223,7 +226,20 @@ pub fn run_phase(inv: &Invocation, script: &Script, script_path: &Path) -> Resul
     std::fs::write(script_path, serde_json::to_string(script).map_err(|e| e.to_string())?)
         .map_err(|e| format!("write script: {e}"))?;
     let _ = std::fs::remove_file(script.marker_dir.join("markers"));
-    let mut cmd = Command::new(simbp_path());
+    let exe = match &inv.exe_file_name {
+        Some(name) => {
+            let dir = script_path.parent().unwrap_or_else(|| Path::new("/")).join("exe-dir");
+            std::fs::create_dir_all(&dir).map_err(|e| e.to_string())?;
+            let p = dir.join(name);
+            let _ = std::fs::remove_file(&p);
+            if std::fs::hard_link(simbp_path(), &p).is_err() {
+                std::fs::copy(simbp_path(), &p).map_err(|e| format!("copy simbp: {e}"))?;
+            }
+            p
+        }
+        None => simbp_path(),
+    };
+    let mut cmd = Command::new(exe);
     cmd.arg0(&inv.arg0)
         .args(&inv.args)
         .env_clear()
